@@ -266,6 +266,45 @@ theorem flatBridge_order {β : Type} (ps : List (String × List β)) :
     (sortByName ps).Perm ps ∧ (sortByName ps).Pairwise fun a b => ¬ b.1 < a.1 :=
   ⟨sortByName_perm ps, sortByName_sorted ps⟩
 
+/-! ## gradient hand-off to the optimiser (`hf_model_wrapper`, `minimize`) -/
+
+/-- **`get ∘ set = id` on flat vectors**: after `set_model_flat_parameter(model, θ)` the flat parameter vector is `θ` again — in
+particular the vector `scipy` optimises over and the vector of `get_model_flat_grad` / `hf_model_wrapper` index the same
+coordinates (distinct parameter names; `θ` of the right length). -/
+theorem handoff_get_set {β : Type} (ps : ParamList β) (θ : List β)
+    (hdist : (trainable ps).Pairwise fun a b => a.1 < b.1)
+    (hlen : θ.length = ((trainable ps).map fun p => p.2.length).sum) :
+    (sortByName (setFlat ps θ)).flatMap (·.2) = θ := by
+  have hn : (setFlat ps θ).Pairwise fun a b => a.1 < b.1 := by
+    have h1 := unflatten_names ((trainable ps).map fun p => (p.1, p.2.length)) θ
+    have h2 : ((setFlat ps θ).map (·.1)).Pairwise (· < ·) := by
+      rw [setFlat, h1, List.map_map]
+      exact (List.pairwise_map.2 hdist)
+    exact List.pairwise_map.1 h2
+  rw [sortByName_of_sorted _ hn, setFlat]
+  apply flatMap_unflatten
+  rw [hlen, List.map_map]; rfl
+
+/-- **`set ∘ get = id`**: writing back the flat vector that was read changes nothing. -/
+theorem handoff_set_get {β : Type} (ps : ParamList β) : setFlat ps (getFlat ps) = trainable ps :=
+  unflatten_flatMap (trainable ps)
+
+/-- parameters with `requires_grad=False` are skipped consistently: they never enter the flat vectors … -/
+theorem handoff_trainable_only {β : Type} (ps : ParamList β) (q : String × List β) (hq : q ∈ trainable ps) :
+    ∃ p ∈ ps, p.2.1 = true ∧ q = (p.1, p.2.2) := by
+  have := (sortByName_perm _).mem_iff.1 hq
+  rw [List.mem_map] at this
+  obtain ⟨p, hp, rfl⟩ := this
+  rw [List.mem_filter] at hp
+  exact ⟨p, hp.1, hp.2, rfl⟩
+
+/-- … and `set_model_flat_parameter` leaves them untouched. -/
+theorem handoff_frozen_untouched {β : Type} (ps : ParamList β) (θ : List β) (p : String × Bool × List β) (hp : p ∈ ps)
+    (hf : p.2.1 = false) : p ∈ afterSet ps θ := by
+  unfold afterSet
+  rw [List.mem_map]
+  exact ⟨p, hp, by simp [hf]⟩
+
 /-! ## `CircuitTorchWrapper._setup`: the index maps (`_torch_utils.py:101-156`) -/
 
 /-- **`ind_gate_to_ind_torch` addresses distinct rows**: two different gates read the same row of the same stacked gate tensor
